@@ -350,7 +350,30 @@ def class_mismatches(case, res, m):
 
 
 # ----------------------------------------------------------------- running the impl
-def run_impl_cases(ctx, cases, script="c20_impl.py", workers=12, timeout=1500):
+def run_env(ctx):
+    return common.impl_env({"VERIF_C20_RUN": ctx.tmp})
+
+
+def kill_stragglers(tag):
+    """SIGKILL every process started (directly or not) by this run that is still alive: they all carry
+    VERIF_C20_RUN=<scratch dir of this run> in their environment"""
+    import signal
+    needle = ("VERIF_C20_RUN=%s" % tag).encode()
+    n = 0
+    for d in os.listdir("/proc"):
+        if not d.isdigit() or int(d) == os.getpid():
+            continue
+        try:
+            with open("/proc/%s/environ" % d, "rb") as f:
+                if needle in f.read().split(b"\0"):
+                    os.kill(int(d), signal.SIGKILL)
+                    n += 1
+        except OSError:
+            pass
+    return n
+
+
+def run_impl_cases(ctx, cases, script="c20_impl.py", workers=12, timeout=900):
     if not cases:
         return []
     workers = max(1, min(workers, len(cases)))
@@ -358,7 +381,7 @@ def run_impl_cases(ctx, cases, script="c20_impl.py", workers=12, timeout=1500):
 
     def one(ch):
         rc, out, err = common.run_impl(script, args=[ctx.tmp], input_text="\n".join(json.dumps(c) for c in ch) + "\n",
-                                       timeout=timeout)
+                                       timeout=timeout, env=run_env(ctx))
         lines = [json.loads(l) for l in out.splitlines() if l.strip()]
         if len(lines) != len(ch):
             raise RuntimeError("%s produced %d results for %d cases: %s" % (script, len(lines), len(ch), err[-1500:]))
@@ -398,7 +421,7 @@ def search_failing(ctx, n=150):
 def shrink(ctx, case, bad):
     """greedy line removal while the oracle still fails (bounded effort)"""
     cur = strip_case(case)
-    budget = 6
+    budget = 4
     while budget and len(cur["steps"]) > 1:
         budget -= 1
         n = len(cur["steps"])
@@ -510,47 +533,64 @@ Definition show_a (a : action) : Z * list Z :=
   end.
 Definition show_fs (fo : list nat) (fi : list (nat * nat)) :=
   (map Z.of_nat fo, map (fun x => (Z.of_nat (fst x), Z.of_nat (snd x))) fi).
-Fixpoint states (w : world) (evs : list event) :=
-  match evs with
-  | [] => []
-  | e :: t => let w' := fst (ev_step w e) in
-              (map show_a (snd (ev_step w e)), show_fs (w_folders w') (w_files w')) :: states w' t
+Inductive mev := MSeq (l : list event) | MCleanAll (second force allow : bool) (pad : nat).
+(* context_id omitted: the manager iterates over list(self._cached_temp_folders) (insertion order) *)
+Definition expand (w : world) (m : mev) : list event :=
+  match m with
+  | MSeq l => l
+  | MCleanAll second force allow pad =>
+      flat_map (fun c => ECleanFiles c force :: repeat ETracker pad ++ [ECleanFolder c (allow || force)] ++ repeat ETracker pad)
+               (filter (fun c => Bool.eqb (Nat.leb 10 c) second) (rev (w_cached w)))
   end.
-Definition show_m (evs : list event) :=
-  (states world0 evs, let d := disk_after_kill (run_events world0 evs) in show_fs (fst d) (snd d))."""
+Fixpoint acts (w : world) (evs : list event) : list action * world :=
+  match evs with
+  | [] => ([], w)
+  | e :: t => let '(a, w') := acts (fst (ev_step w e)) t in (snd (ev_step w e) ++ a, w')
+  end.
+Fixpoint mstates (w : world) (ms : list mev) :=
+  match ms with
+  | [] => ([], w)
+  | m :: t => let '(a, w') := acts w (expand w m) in
+              let '(r, wf) := mstates w' t in
+              ((map show_a a, show_fs (w_folders w') (w_files w')) :: r, wf)
+  end.
+Definition show_m (ms : list mev) :=
+  let '(r, w) := mstates world0 ms in (r, let d := disk_after_kill w in show_fs (fst d) (snd d))."""
 MG_CTX0 = 9
 MG_PAD = 6
 
 
 def mg_coq_events(sc):
-    """scenario -> (flat Coq event list, owner index per flat event; -1 = constructor)"""
+    """scenario -> list of Gallina macro events: [constructor(s)] + one per scenario event"""
     b = lambda x: "true" if x else "false"  # noqa
-    flat, owner = ["ENewContext %d" % MG_CTX0] + ["ETracker"] * 2, [-1] * 3
+    tr = lambda n: ["ETracker"] * n  # noqa
+    seq = lambda es: "MSeq %s" % common.coq_list(es)  # noqa
+    out = [seq(["ENewContext %d" % MG_CTX0] + (["ENewContext %d" % (10 + MG_CTX0)] if sc.get("two") else []) + tr(3))]
     frozen = False
-    for i, ev in enumerate(sc["events"]):
+    for ev in sc["events"]:
         k = ev[0]
-        pad = MG_PAD
+        pad = 0 if frozen else MG_PAD
         if k == "new":
-            es = ["ENewContext %d" % ev[1]]
+            m = seq(["ENewContext %d" % ev[1]] + tr(pad))
         elif k == "mkdir":
-            es = ["EMkdir %d" % ev[1]]
+            m = seq(["EMkdir %d" % ev[1]] + tr(pad))
         elif k == "reg":
-            es = ["ERegFile %d %d" % (ev[1], ev[2])]
+            m = seq(["ERegFile %d %d" % (ev[1], ev[2])] + tr(pad))
         elif k == "write":
-            es = ["EWrite %d %d" % (ev[1], ev[2])]
+            m = seq(["EWrite %d %d" % (ev[1], ev[2])] + tr(pad))
         elif k == "unl":
-            es = ["EUnlinkFile %d %d" % (ev[1], ev[2])]
-        elif k == "clean":
-            es = ["ECleanFiles %d %s" % (ev[1], b(ev[2]))] + ([] if frozen else ["ETracker"] * MG_PAD) + \
-                 ["ECleanFolder %d %s" % (ev[1], b(ev[3] or ev[2]))]
+            m = seq(["EUnlinkFile %d %d" % (ev[1], ev[2])] + tr(pad))
+        elif k == "clean":   # omitted keywords take the defaults force=False, allow_non_empty=False
+            m = seq(["ECleanFiles %d %s" % (ev[1], b(ev[2]))] + tr(pad) +
+                    ["ECleanFolder %d %s" % (ev[1], b(ev[3] or ev[2]))] + tr(pad))
+        elif k == "cleanall":
+            m = "MCleanAll %s %s %s %d" % (b(ev[1] == 2), b(ev[2]), b(ev[3]), pad)
         elif k == "freeze":
-            frozen, es = True, []
+            frozen, m = True, seq([])
         elif k == "thaw":
-            frozen, es, pad = False, [], 60
-        es = es + ([] if frozen else ["ETracker"] * pad)
-        flat += es
-        owner += [i] * len(es)
-    return flat, owner
+            frozen, m = False, seq(tr(60))
+        out.append(m)
+    return out
 
 
 def mg_real_actions(actions):
@@ -581,30 +621,28 @@ def mg_norm(seq):
 def mg_compare(sc, res, mval):
     s = mval.replace("%Z", "").replace("%nat", "").replace(";", ",")
     states, final = ast.literal_eval(s)
-    flat, owner = mg_coq_events(sc)
-    if len(states) != len(flat):
-        return "model returned %d states for %d events" % (len(states), len(flat))
-    per = {}
-    for (acts, fs), o in zip(states, owner):
-        d = per.setdefault(o, {"acts": [], "fs": None})
-        d["acts"] += [(a[0], list(a[1])) for a in acts if a[0] not in (1, 2)]
-        d["fs"] = fs
+    if len(states) != len(sc["events"]) + 1:
+        return "model returned %d states for %d events" % (len(states), len(sc["events"]) + 1)
     rel = list(res.get("init_rel", [])) + [n for st in res["steps"] for n in st.get("rel", [])]
     if rel:
         return ("a name handed to the tracker is not an absolute path (the model's names are absolute: the tracker "
                 "resolves them with its own cwd): %r" % rel[0])
+
+    def macts(st):
+        return [(a[0], list(a[1])) for a in st[0] if a[0] not in (1, 2)]
     init = mg_real_actions(res.get("init_actions", []))
-    if mg_norm(init) != mg_norm(per[-1]["acts"]):
-        return "constructor: model %s, implementation %s" % (per[-1]["acts"], init)
+    if mg_norm(init) != mg_norm(macts(states[0])):
+        return "constructor: model %s, implementation %s" % (macts(states[0]), init)
     for i, st in enumerate(res["steps"]):
-        m = per.get(i, {"acts": [], "fs": None})
+        m = states[i + 1]
         real = mg_real_actions(st["actions"])
-        if mg_norm(real) != mg_norm(m["acts"]):
-            return "event %d %s: model performs %s, implementation %s" % (i, st["ev"], mg_norm(m["acts"]), mg_norm(real))
-        if m["fs"] is not None:
-            mfo, mfi = sorted(m["fs"][0]), sorted([list(x) for x in m["fs"][1]])
-            if mfo != sorted(st["disk"]["folders"]) or mfi != sorted(st["disk"]["files"]):
-                return "event %d %s: model disk %s %s, implementation %s" % (i, st["ev"], mfo, mfi, st["disk"])
+        if st.get("raised"):
+            return "event %d %s: the implementation raised %s, the model does not" % (i, st["ev"], st["raised"])
+        if mg_norm(real) != mg_norm(macts(m)):
+            return "event %d %s: model performs %s, implementation %s" % (i, st["ev"], mg_norm(macts(m)), mg_norm(real))
+        mfo, mfi = sorted(m[1][0]), sorted([list(x) for x in m[1][1]])
+        if mfo != sorted(st["disk"]["folders"]) or mfi != sorted(st["disk"]["files"]):
+            return "event %d %s: model disk %s %s, implementation %s" % (i, st["ev"], mfo, mfi, st["disk"])
     if sc.get("end", "kill") == "kill" and bool(list(final[0]) or list(final[1])) != bool(res["left"]):
         return "after the kill: model %s, implementation %s" % (final, res["left"])
     return None
@@ -614,31 +652,40 @@ def judge_manager(sc, res):
     """(violation | None, inconclusive | None): the end-state oracle"""
     if "harness_error" in res:
         return None, "harness error " + res["harness_error"]
+    if res.get("skipped"):
+        return None, "skipped"
+    if res.get("ctor_error"):
+        return "TemporaryResourcesManager(...) raised %s" % res["ctor_error"], None
     if res.get("flags") or any(not st["synced"] for st in res["steps"]):
         return None, "flags %s %s" % (res.get("flags"), res.get("stderr_tail", "")[-200:])
+    for st in res["steps"]:
+        if st.get("raised"):
+            return "event %s raised %s (a clean-up request must not fail; the remaining contexts are skipped)" % (
+                st["ev"], st["raised"]), None
     # not early: a file with a registered user left may only disappear through a clean-up that is
     # allowed to remove a non-empty folder (force / allow_non_empty)
     cnt, prev = {}, set()
     for st in res["steps"]:
         ev = st["ev"]
         now = {tuple(x) for x in st["disk"]["files"]}
-        may_remove_all = False
+        exempt = set()   # contexts whose folder this event may remove although files in it are in use
         if ev[0] == "reg":
             cnt[(ev[1], ev[2])] = cnt.get((ev[1], ev[2]), 0) + 1
         elif ev[0] == "unl" and cnt.get((ev[1], ev[2]), 0) > 0:
             cnt[(ev[1], ev[2])] -= 1
-        elif ev[0] == "clean":
-            for k in [k for k in prev if k[0] == ev[1]]:
+        elif ev[0] in ("clean", "cleanall"):
+            ctxs = {ev[1]} if ev[0] == "clean" else {k[0] for k in prev if (k[0] >= 10) == (ev[1] == 2)}
+            for k in [k for k in prev if k[0] in ctxs]:
                 if ev[2]:
                     cnt[k] = 0
                 elif cnt.get(k, 0) > 0:
                     cnt[k] -= 1
-            may_remove_all = bool(ev[2] or ev[3])
-        if not may_remove_all:
-            gone = sorted(k for k in prev - now if cnt.get(k, 0) > 0)
-            if gone:
-                return ("event %s: file(s) %s disappeared although %s registered user(s) remain" % (
-                    ev, gone, [cnt[k] for k in gone])), None
+            if ev[2] or ev[3]:
+                exempt = ctxs
+        gone = sorted(k for k in prev - now if cnt.get(k, 0) > 0 and k[0] not in exempt)
+        if gone:
+            return ("event %s: file(s) %s disappeared although %s registered user(s) remain" % (
+                ev, gone, [cnt[k] for k in gone])), None
         prev = now
     if res["left"]:
         return ("after the client %s and the tracker exited, left on disk: %s" % (
@@ -647,28 +694,42 @@ def judge_manager(sc, res):
 
 
 def gen_manager(rng):
+    two = rng.random() < 0.35
+    ctxs = [1, 2] + ([11, 12] if two else [])
+    ob = lambda p: (rng.random() < p)  # noqa
+
+    def clean_ev(c):
+        shape = rng.random()
+        if shape < 0.3:    # LokyBackend.terminate: context_id + force=False, allow_non_empty omitted
+            return ["clean", c, False, None]
+        if shape < 0.45:   # MemmappingExecutor.terminate(kill_workers): all contexts, allow_non_empty=True
+            return ["cleanall", 2 if c >= 10 else 1, ob(0.5), True]
+        if shape < 0.55:   # MemmappingPool.terminate: no argument at all
+            return ["cleanall", 2 if c >= 10 else 1, None, None]
+        return ["clean", c, ob(0.2), ob(0.3)]
     evs = []
     if rng.random() < 0.6:
-        c = rng.choice([1, 2])
-        evs += [["new", c], ["mkdir", c]]
+        c = rng.choice(ctxs)
+        evs += [["new", c]] + ([["mkdir", c]] if ob(0.85) else [])
         files = rng.sample([0, 1, 2], rng.choice([1, 1, 2, 3]))
-        regs = {}
         for f in files:
-            regs[f] = rng.choice([1, 2, 2, 3])
-            evs += [["reg", c, f]] * regs[f]
-            if rng.random() < 0.9:
+            evs += [["reg", c, f]] * rng.choice([1, 2, 2, 3])
+            if ob(0.9):
                 evs.append(["write", c, f])
+        if two and ob(0.7):   # the other manager works on the same context id meanwhile
+            c2 = c + 10 if c < 10 else c - 10
+            evs += [["new", c2], ["mkdir", c2], ["reg", c2, 0], ["reg", c2, 0], ["write", c2, 0]]
         for _ in range(rng.choice([0, 0, 1, 2, 3])):
             evs.append(["unl", c, rng.choice(files)])
-        if rng.random() < 0.15:
+        if ob(0.15):
             evs.append(["freeze"])
-        evs.append(["clean", c, rng.random() < 0.2, rng.random() < 0.3])
+        evs.append(clean_ev(c))
         for _ in range(rng.choice([0, 0, 1, 3])):
             k = rng.choice(["unl", "clean", "new", "mkdir", "write", "thaw"])
             if k == "unl":
                 evs.append(["unl", c, rng.choice(files)])
             elif k == "clean":
-                evs.append(["clean", c, rng.random() < 0.2, rng.random() < 0.5])
+                evs.append(clean_ev(rng.choice(ctxs)))
             elif k == "thaw":
                 evs.append(["thaw"])
             else:
@@ -676,11 +737,10 @@ def gen_manager(rng):
     else:
         for _ in range(rng.randint(5, 16)):
             k = rng.choice(["new"] * 3 + ["mkdir"] * 3 + ["reg"] * 5 + ["write"] * 4 + ["unl"] * 4 + ["clean"] * 3 + ["freeze", "thaw"])
-            c, f = rng.choice([1, 2]), rng.choice([0, 1, 2])
+            c, f = rng.choice(ctxs), rng.choice([0, 1, 2])
             evs.append({"new": ["new", c], "mkdir": ["mkdir", c], "reg": ["reg", c, f], "write": ["write", c, f],
-                        "unl": ["unl", c, f], "clean": ["clean", c, rng.random() < 0.25, rng.random() < 0.4],
-                        "freeze": ["freeze"], "thaw": ["thaw"]}[k])
-    return {"events": evs, "end": "kill" if rng.random() < 0.75 else "exit",
+                        "unl": ["unl", c, f], "clean": clean_ev(c), "freeze": ["freeze"], "thaw": ["thaw"]}[k])
+    return {"events": evs, "end": "kill" if rng.random() < 0.75 else "exit", "two": two,
             # how temp_folder is spelled, and whether the tracker was started under another cwd
             "root": rng.choice(["abs", "abs", "rel", "relsub", "env", "envabs"]), "chdir": rng.random() < 0.5}
 
@@ -706,15 +766,22 @@ def run_manager_stage(ctx, quick):
     stats = {"scenarios": n, "inconclusive": 0, "disagreements": 0, "kills": sum(1 for s in scs if s["end"] == "kill"),
              "clean_failed": 0, "clean_ok": 0, "model_evaluations": 0}
     bad_cases, usable = [], []
+    retries, first_inc = 0, None
     for i, (sc, r) in enumerate(zip(scs, res)):
         bad, inc = judge_manager(sc, r)
-        if inc:
+        if inc and inc != "skipped" and retries < 2:
+            retries += 1
             r = run_impl_cases(ctx, [sc], script="c20_manager.py", workers=1)[0]
             res[i] = r
             bad, inc = judge_manager(sc, r)
         if inc:
             stats["inconclusive"] += 1
-            ctx.note("manager scenario inconclusive (%s): %s" % (inc, json.dumps(sc)))
+            if inc != "skipped":
+                first_inc = first_inc or (inc, sc)
+                ctx.note("manager scenario inconclusive (%s): %s" % (inc, json.dumps(sc)))
+            continue
+        if r.get("ctor_error"):
+            bad_cases.append((bad, sc))
             continue
         usable.append(i)
         for st in r["steps"]:
@@ -723,7 +790,10 @@ def run_manager_stage(ctx, quick):
                     stats["clean_ok" if a[1] == "ok" else "clean_failed"] += 1
         if bad:
             bad_cases.append((bad, sc))
-    exprs = ["show_m %s" % common.coq_list(mg_coq_events(scs[i])[0]) for i in usable]
+    if first_inc and stats["inconclusive"] >= max(2, n // 4):
+        ctx.violation("TemporaryResourcesManager stage could not be evaluated on %d of %d scenarios (time-outs / hangs / "
+                      "crashes): %s" % (stats["inconclusive"], n, first_inc[0]), {"kind": "manager", "scenario": first_inc[1]}, True)
+    exprs = ["show_m %s" % common.coq_list(mg_coq_events(scs[i])) for i in usable]
     vals = ctx.coq_eval_lines(MG_REQ, MG_DEFS, exprs, name="c20mg", shard=max(4, len(exprs) // common.NCPU + 1))
     stats["model_evaluations"] = len(vals)
     dis = []
@@ -782,19 +852,26 @@ def judge_signal(sc, r):
 def run_signal_stage(ctx):
     scs = [{"sig": s, "target": t, "when": w} for w in ("pending", "running") for s in ("TERM", "INT") for t in ("pid", "group")]
     res = run_impl_cases(ctx, scs, script="c20_signals.py", workers=8)
-    inconclusive = 0
+    inconclusive, first_inc = 0, None
     masks = set()
     for sc, r in zip(scs, res):
+        if r.get("skipped"):
+            inconclusive += 1
+            continue
         bad, inc = judge_signal(sc, r)
-        if inc:
+        if inc and inconclusive < 2:
             r = run_impl_cases(ctx, [sc], script="c20_signals.py", workers=1)[0]
             bad, inc = judge_signal(sc, r)
         if inc:
             inconclusive += 1
+            first_inc = first_inc or (inc, sc)
             ctx.note("signal scenario inconclusive (%s): %s" % (inc, json.dumps(sc)))
         elif bad:
             ctx.violation(bad, {"kind": "signal", "scenario": sc}, True)
         masks.add(tuple(r.get("mask_at_spawn") or ()))
+    if first_inc and inconclusive >= 3:
+        ctx.violation("signal stage could not be evaluated on %d of %d scenarios: %s" % (inconclusive, len(scs), first_inc[0]),
+                      {"kind": "signal", "scenario": first_inc[1]}, True)
     return {"scenarios": len(scs), "inconclusive": inconclusive, "mask_at_spawn_seen": sorted(masks)}
 
 
@@ -804,7 +881,8 @@ KEY_WERROR_E2E = "eof-cleanup-aborted:-W-error:parallel-memmap-folder-left-after
 
 def run_np(ctx, mode):
     try:
-        rc, out, err = common.run_impl("c20_parallel_np.py", args=[ctx.tmp, mode], py=common.PYNP, timeout=400)
+        rc, out, err = common.run_impl("c20_parallel_np.py", args=[ctx.tmp, mode], py=common.PYNP, timeout=400,
+                                       env=run_env(ctx))
         return json.loads(out.strip().splitlines()[-1])
     except Exception as e:  # noqa
         return {"mode": mode, "harness_error": "%s: %s" % (type(e).__name__, e)}
@@ -848,6 +926,15 @@ WERROR_WITNESS = {"steps": [{"pre": [], "line": "REGISTER:d0:folder", "nl": True
 
 # ------------------------------------------------------------------------------ run
 def run(ctx):
+    import atexit
+    import time as _time
+    atexit.register(kill_stragglers, ctx.tmp)
+    stage_t = {}
+    _t = [_time.time()]
+
+    def lap(name):
+        stage_t[name] = round(_time.time() - _t[0], 1)
+        _t[0] = _time.time()
     quick = ctx.tier == "quick"
     trusted = [
         "Coq 8.16.1 kernel (coqc); vm_compute in the Examples, the _refuted witness and the cases evaluation",
@@ -872,8 +959,9 @@ def run(ctx):
     res = run_impl_cases(ctx, cases, workers=min(14, common.NCPU))
 
     # constants of the live code the model fixes
-    types_seen = {tuple(r.get("types") or ()) for r in res if "harness_error" not in r}
-    if types_seen != {tuple(TYPES)}:
+    types_seen = {tuple(r.get("types") or ()) for r in res if "harness_error" not in r and not r.get("skipped")
+                  and r.get("types")}
+    if types_seen and types_seen != {tuple(TYPES)}:
         ctx.violation("_CLEANUP_FUNCS keys/order are %s, the model assumes %s" % (sorted(types_seen), TYPES),
                       {"kind": "correspondence", "correspondence": "resource types (dict order decides the EOF order)"},
                       found_input=False)
@@ -882,6 +970,11 @@ def run(ctx):
     oracle_fail, known_hits = [], 0
     kinds, nontrivial = {}, set()
     n_lines = 0
+    n_skipped = sum(1 for r in res if r.get("skipped"))
+    if n_skipped:
+        ctx.note("%d tracker-loop cases skipped by the early stop (time-outs)" % n_skipped)
+        keep = [i for i, r in enumerate(res) if not r.get("skipped")]
+        cases, res = [cases[i] for i in keep], [res[i] for i in keep]
     for c, r in zip(cases, res):
         bad, key = judge_loop(c, r)
         if bad and key:
@@ -926,7 +1019,13 @@ def run(ctx):
         ctx.note("%d logged errors have another exception class than the model names (not a property matter)" % cls_mis)
 
     # decide
-    for bad, c, r in oracle_fail[:3]:
+    def hung(r):
+        return any("timeout" in f or "not-logged" in f for f in r.get("flags", []))
+    oracle_fail.sort(key=lambda x: hung(x[2]))   # definite failures first
+    for n, (bad, c, r) in enumerate(oracle_fail[:3]):
+        if hung(r) or n:   # no shrinking of hangs (every candidate would wait for its time-out), shrink one case only
+            ctx.violation(bad, {"kind": "oracle", "case": strip_case(c)}, True)
+            continue
         small = shrink(ctx, c, bad)
         rr = run_impl_cases(ctx, [small])[0]
         b2, k2 = judge_loop(small, rr)
@@ -941,44 +1040,62 @@ def run(ctx):
                           {"kind": "correspondence", "first_disagreement": disagreements[0],
                            "correspondence": "Model/ResTracker.v main vs resource_tracker.main(fd)"}, found_input=False)
 
+    lap('proofs+loop+model')
     # client-side sample
     n_sc = 10 if quick else 80
     scs = [gen_scenario(ctx.rng) for _ in range(n_sc)]
     cres = run_impl_cases(ctx, scs, script="c20_clients.py", workers=min(8, common.NCPU))
     cl_viol, cl_inconclusive, cl_kills = 0, 0, 0
+    retries = 0
+    first_inc = None
     for sc, r in zip(scs, cres):
+        if r.get("skipped"):
+            cl_inconclusive += 1
+            continue
         bad, inc = judge_clients(sc, r)
-        if inc:  # retried once, alone
+        if inc and retries < 2:  # retried once, alone
+            retries += 1
             r = run_impl_cases(ctx, [sc], script="c20_clients.py", workers=1)[0]
             bad, inc = judge_clients(sc, r)
         if inc:
             cl_inconclusive += 1
+            first_inc = first_inc or (inc, sc)
             ctx.note("client sample inconclusive (%s): %s" % (inc, json.dumps(sc)))
         elif bad:
             cl_viol += 1
             ctx.violation("client-side sample: " + bad, {"kind": "clients", "scenario": sc}, True)
         cl_kills += sum(1 for s in sc["script"] if s[1] == "kill")
+    if first_inc and cl_inconclusive >= max(2, len(scs) // 4):
+        ctx.violation("client-side sample could not be evaluated on %d of %d scenarios (time-outs / hangs): %s"
+                      % (cl_inconclusive, len(scs), first_inc[0]), {"kind": "clients", "scenario": first_inc[1]}, True)
 
+    lap('clients')
     # TemporaryResourcesManager, event by event, then kill / exit
     mg_stats, mg_sample = run_manager_stage(ctx, quick)
 
+    lap('manager')
     # SIGINT / SIGTERM to the tracker spawned by the real ensure_running()
     sg_stats = run_signal_stage(ctx)
 
+    lap('signals')
     # Parallel + numpy life-cycle (sampled; python3-vt)
     modes = (["normal", "kill", "kill-rel", "kill-werror"] if quick
              else ["normal"] * 3 + ["kill"] * 4 + ["kill-rel"] * 3 + ["kill-werror"])
     with cf.ThreadPoolExecutor(min(6, len(modes))) as ex:
         nres = list(ex.map(lambda m: run_np(ctx, m), modes))
-    np_inconclusive, np_ok = 0, 0
+    np_inconclusive, np_ok, np_crashed = 0, 0, []
+    np_retries = 0
     for mode, r in zip(modes, nres):
         bad, inc, key = judge_np(r)
-        if inc:
+        if inc and np_retries < 2:
+            np_retries += 1
             r = run_np(ctx, mode)
             bad, inc, key = judge_np(r)
         if inc:
             np_inconclusive += 1
             ctx.note("Parallel/numpy sample (%s) inconclusive: %s" % (mode, inc))
+            if inc.startswith("flags") and ("no-output" in inc or "workload-ended-early" in inc or "workers-not-seen" in inc):
+                np_crashed.append((mode, inc))
         elif bad:
             ctx.violation("Parallel/numpy sample (%s): %s" % (mode, bad), {"kind": "parallel-numpy", "mode": mode, "left": r.get("left"),
                                                                            "stderr_tail": r.get("stderr_tail")}, True,
@@ -988,6 +1105,12 @@ def run(ctx):
             if mode == "kill-werror":
                 ctx.note("end-to-end form of F18 (kill-werror) did not leave the folder behind this time")
 
+    if len(np_crashed) >= 2:
+        ctx.violation("Parallel with memmapped arguments could not be run in %d of %d sampled runs: %s"
+                      % (len(np_crashed), len(modes), np_crashed[0][1][:300]),
+                      {"kind": "parallel-numpy", "mode": np_crashed[0][0]}, True)
+
+    lap('numpy')
     # known finding: the witness of C20_eof_refuted_werror must still fail on the implementation
     wr = run_impl_cases(ctx, [WERROR_WITNESS], workers=1)[0]
     wbad, wkey = judge_loop(WERROR_WITNESS, wr)
@@ -1022,6 +1145,7 @@ def run(ctx):
         "client_sigkills": cl_kills,
         "client_inconclusive": cl_inconclusive,
         "client_side_is_sampled": True,
+        "stage_seconds": stage_t,
         "manager_stage": mg_stats,
         "signal_stage": sg_stats,
         "loop_cases_with_signals": sum(1 for c in cases if any(st.get("sig") for st in c["steps"])),
@@ -1055,7 +1179,7 @@ def replay(ctx, path):
         r = run_impl_cases(ctx, [sc], script="c20_manager.py", workers=1)[0]
         bad, inc = judge_manager(sc, r)
         print("replay (TemporaryResourcesManager):", json.dumps(sc), "=>", bad or inc or "property holds")
-        return 1 if bad else 0
+        return 1 if (bad or inc) else 0
     if rep.get("kind") == "clients" or "scenario" in rep:
         sc = rep["scenario"]
         r = run_impl_cases(ctx, [sc], script="c20_clients.py", workers=1)[0]
